@@ -94,8 +94,9 @@ Lemma walk_statement_arms_agree :
 Proof. split; vm_compute; reflexivity. Qed.
 
 (* the nesting bound of array values, and that popValue still has one recursive call guarded by it *)
-Lemma max_value_depth_agrees : max_value_depth = TokensGen.max_value_depth.
-Proof. reflexivity. Qed.
+(* the model's bound is the constant read from parser.go; it must leave room for real files *)
+Lemma max_value_depth_agrees : max_value_depth = TokensGen.max_value_depth /\ N.leb 16 max_value_depth = true.
+Proof. split; reflexivity. Qed.
 Lemma pop_value_guarded : TokensGen.pop_value_recursive_calls = 1 /\ TokensGen.pop_value_depth_guards = 1.
 Proof. split; reflexivity. Qed.
 
